@@ -5,13 +5,15 @@ import (
 	"os"
 
 	"github.com/spq/pkappa2/verif/bsim"
+	"github.com/spq/pkappa2/verif/cachesim"
 	"github.com/spq/pkappa2/verif/mgrsim"
 	"github.com/spq/pkappa2/verif/sim"
 )
 
 var engines = map[string]sim.Engine{
-	"bsim":   bsim.Engine{},
-	"mgrsim": mgrsim.Engine{},
+	"bsim":     bsim.Engine{},
+	"mgrsim":   mgrsim.Engine{},
+	"cachesim": cachesim.Engine{},
 }
 
 func init() {
